@@ -141,49 +141,69 @@ def r2(chk):
            start_column_and_shift=base_core)
     # ---- generator reader: prefs = toks[2:]; idx = prefs.index(c)
     lr = chk.fn(RU, "load_contests_from_raire")
-    prefs = [s for s in ast.walk(lr) if isinstance(s, ast.Assign) and norm(s.targets[0]) == "prefs"]
-    ok_p = len(prefs) == 1 and norm(prefs[0].value) == "toks[2:]"
-    ok_i = False
-    for s in ast.walk(lr):
-        if isinstance(s, ast.Assign) and isinstance(s.targets[0], ast.Subscript) and norm(s.targets[0].value) == "ballot":
-            cand = norm(s.targets[0].slice)
-            v = norm(s.value)
-            defs = {norm(a.targets[0]): norm(a.value) for a in ast.walk(lr) if isinstance(a, ast.Assign) and isinstance(a.targets[0], ast.Name)}
-            ok_i = defs.get(v, v) == f"prefs.index({cand})"
-            g = [a for a in ancestors(s) if isinstance(a, ast.If)]
-            ok_i = ok_i and any(norm(a.test) == f"{cand}inprefs" for a in g)
+    # roles in the ballot loop, discovered from structure: the loop `for l in range(<n>+1, len(<lines>))`,
+    # TOKS = the per-line token list, PREFS = TOKS[2:], the ballot dict receiving PREFS.index(cand)
+    hdr = [l for l in ast.walk(lr) if isinstance(l, ast.For) and isinstance(l.iter, ast.Call) and norm(l.iter.func) == "range" and len(l.iter.args) == 2
+           and isinstance(l.iter.args[1], ast.Call) and norm(l.iter.args[1].func) == "len"]
+    ok_p = ok_i = ok = body_ok = ok_merge = False
+    if len(hdr) == 1:
+        L = hdr[0]
+        lines = norm(L.iter.args[1].args[0])
+        loc = {norm(a.targets[0]): a.value for a in L.body if isinstance(a, ast.Assign) and isinstance(a.targets[0], ast.Name)}
+        sl = [(k, v) for k, v in loc.items() if isinstance(v, ast.Subscript) and isinstance(v.slice, ast.Slice) and isinstance(v.value, ast.Name)]
+        PREFS, TOKS = (sl[0][0], sl[0][1].value.id) if len(sl) == 1 else (None, None)
+        ok_p = PREFS is not None and norm(loc[PREFS]) == f"{TOKS}[2:]" and TOKS in loc and f"{lines}[{norm(L.target)}]" in norm(loc[TOKS]) \
+            and ".split(',')" in norm(loc[TOKS])
+        BALLOT = None
+        for s0 in ast.walk(L):
+            if isinstance(s0, ast.Assign) and isinstance(s0.targets[0], ast.Subscript) and isinstance(s0.targets[0].value, ast.Name) \
+                    and isinstance(s0.targets[0].slice, ast.Name):
+                cand = s0.targets[0].slice.id
+                v = s0.value
+                vdefs = {norm(a.targets[0]): norm(a.value) for a in ast.walk(L) if isinstance(a, ast.Assign) and isinstance(a.targets[0], ast.Name)}
+                if vdefs.get(norm(v), norm(v)) == f"{PREFS}.index({cand})":
+                    BALLOT = s0.targets[0].value.id
+                    g = [a for a in ancestors(s0) if isinstance(a, ast.If)]
+                    ok_i = any(norm(a.test) == f"{cand}in{PREFS}" for a in g) and norm(loc.get(BALLOT, ast.Constant(value=0))) == "{}"
+        # header skipping: range(<n>+1, len(lines)) with <n> = int(lines[0])
+        a0 = L.iter.args[0]
+        nname = None
+        if isinstance(a0, ast.BinOp) and isinstance(a0.op, ast.Add):
+            parts = [a0.left, a0.right]
+            names = [x for x in parts if isinstance(x, ast.Name)]
+            ones = [x for x in parts if isinstance(x, ast.Constant) and x.value == 1]
+            if len(names) == 1 and len(ones) == 1:
+                nname = names[0].id
+        nc = [s0 for s0 in ast.walk(lr) if isinstance(s0, ast.Assign) and nname and norm(s0.targets[0]) == nname]
+        ok = len(nc) == 1 and norm(nc[0].value) == f"int({lines}[0])"
+        CID = next((k for k, v in loc.items() if norm(v) == f"{TOKS}[0]"), None)
+        BID = next((k for k, v in loc.items() if norm(v) == f"{TOKS}[1]"), None)
+        body_ok = CID is not None and BID is not None
+        # repeated ballot ids merge contests
+        for i in [x for x in ast.walk(L) if isinstance(x, ast.If)]:
+            t = i.test
+            tt = norm(t)
+            if BID and (tt.startswith(f"not{BID}in") or tt.startswith(f"{BID}notin")):
+                store = tt.split("in", 1)[1] if tt.startswith(f"not{BID}in") else tt.split("notin", 1)[1]
+                a = [norm(x) for x in i.body]
+                b = [norm(x) for x in i.orelse]
+                ok_merge = a == [f"{store}[{BID}]={{{CID}:{BALLOT}}}"] and b == [f"{store}[{BID}][{CID}]={BALLOT}"]
     chk.ob("C14.R2", f"{RU}:load_contests_from_raire", "raire-index=k-1", ok_p and ok_i,
            "generator-side reader: the token in column j >= 2 gets index j - 2 (its position in toks[2:]), only listed candidates are "
-           "recorded: indices are 0-based, so core rank = generator index + 1 for every ballot", node=lr)
-    # header skipping agrees: core raire[skip+1:], generator range(ncontests+1, len(lines))
-    hdr = [l for l in ast.walk(lr) if isinstance(l, ast.For) and isinstance(l.iter, ast.Call) and norm(l.iter.func) == "range" and len(l.iter.args) == 2
-           and norm(l.iter.args[1]) == "len(lines)"]
-    ok = len(hdr) == 1 and norm(hdr[0].iter.args[0]) in ("ncontests+1", "1+ncontests")
-    nc = [s for s in ast.walk(lr) if isinstance(s, ast.Assign) and norm(s.targets[0]) == "ncontests"]
-    ok = ok and len(nc) == 1 and norm(nc[0].value) == "int(lines[0])"
-    body_ok = False
-    if hdr:
-        loc = {norm(a.targets[0]): norm(a.value) for a in hdr[0].body if isinstance(a, ast.Assign) and isinstance(a.targets[0], ast.Name)}
-        body_ok = loc.get("cid") == "toks[0]" and loc.get("bid") == "toks[1]"
+           "recorded in a fresh dict per line: indices are 0-based, so core rank = generator index + 1 for every ballot", node=lr)
     chk.ob("C14.R2", f"{RU}:load_contests_from_raire", "header-and-columns", ok and body_ok,
            "ballot lines start after the count line and the declared contest lines; column 0 is the contest, column 1 the ballot id "
            "(as in the audit-side reader)", node=lr)
-    # merging of a card's contests (repeated ballot ids)
-    ok = False
-    for i in [x for x in ast.walk(lr) if isinstance(x, ast.If)]:
-        if norm(i.test) in ("notbidincvrs", "bidnotincvrs"):
-            a = [norm(s) for s in i.body]
-            b = [norm(s) for s in i.orelse]
-            ok = a == ["cvrs[bid]={cid:ballot}"] and b == ["cvrs[bid][cid]=ballot"]
-    chk.ob("C14.R2", f"{RU}:load_contests_from_raire", "repeated-ids-merge-contests", ok,
+    chk.ob("C14.R2", f"{RU}:load_contests_from_raire", "repeated-ids-merge-contests", ok_merge,
            "a repeated ballot identifier adds the contest to the existing record (as CVR.merge_cvrs does on the audit side)", node=lr, strength="N")
     # first-preference and unranked tests use the respective bases
     maj = chk.fn(REL, "Assertion.make_assertions_from_json")
     lam = [l for l in aud.lambdas_in(maj) if "get_vote_for" in norm(l.body)]
     ok = False
+    wn, ln = outer_pair_names(maj)
     if len(lam) == 1:
         v, _ = aud.lambda_term(lam[0], Tx(), arg_names=["v"])
-        want = symx.prune(Tx().expr(ast.parse("1 if v.get_vote_for(contest.id, winr) == 1 else 0", mode="eval").body))
+        want = symx.prune(Tx().expr(ast.parse(f"1 if v.get_vote_for(contest.id, {wn}) == 1 else 0", mode="eval").body))
         ok = symx.equivalent(symx.prune(v), want)[0]
     chk.ob("C14.R2", W("Assertion.make_assertions_from_json"), "core-first-preference==1", ok,
            "audit side: a ballot counts for the NEB winner iff the winner's rank equals 1 (the 1-based first preference)", node=lam[0] if lam else maj)
@@ -198,6 +218,19 @@ def r2(chk):
     want, _ = spec.expr_term("ballot[cand] if cand in ballot else -1")
     spec.compare(chk, "C14.R2", f"{RU}:ranking", "unranked-sentinel=-1", "ranking() returns the stored index, and -1 for a candidate that is not ranked",
                  code, want, node=rk)
+
+
+def outer_pair_names(maj):
+    """names bound to assrtn["winner"] / assrtn["loser"] in the assertion loop"""
+    wn = ln = None
+    for st in ast.walk(maj):
+        if isinstance(st, ast.Assign) and isinstance(st.targets[0], ast.Name) and isinstance(st.value, ast.Subscript) \
+                and isinstance(st.value.slice, ast.Constant):
+            if st.value.slice.value == "winner":
+                wn = st.targets[0].id
+            if st.value.slice.value == "loser":
+                ln = st.targets[0].id
+    return wn or "winr", ln or "losr"
 
 
 def rename(val, mapping):
@@ -299,7 +332,13 @@ def r4(chk):
             if isinstance(s, ast.Assign) and isinstance(s.targets[0], ast.Name):
                 tx._assign(s.targets[0], tx.expr(s.value))
         # rank_cand is bound by a walrus in the guard
-        tx.env.setdefault("rank_cand", E(sp.Function("self.get_vote_for")(S("contest_id"), S("cand"))))
+        for ne in ast.walk(core):
+            if isinstance(ne, ast.NamedExpr) and isinstance(ne.value, ast.Call) and norm(ne.value.func) == "self.get_vote_for":
+                tx.env.setdefault(ne.target.id, Tx().expr(ne.value))
+        for st0 in core.body:
+            if isinstance(st0, ast.Assign) and isinstance(st0.targets[0], ast.Name) and isinstance(st0.value, ast.Call) \
+                    and norm(st0.value.func) == "self.get_vote_for":
+                tx.env.setdefault(st0.targets[0].id, Tx().expr(st0.value))
         kill = tx.cond(sk["kills"][0][0])
         ga, gc = f"self.get_vote_for(contest_id, {a})", "self.get_vote_for(contest_id, cand)"
         want_kill = c_and(("atom", f"truthy({ga})"), c_not(("atom", f"lt({gc},{ga})")))
@@ -348,15 +387,29 @@ def r4(chk):
     maj = chk.fn(REL, "Assertion.make_assertions_from_json")
     defs = {norm(s.targets[0]): s.value for s in ast.walk(maj) if isinstance(s, ast.Assign) and isinstance(s.targets[0], ast.Name)}
     ok = False
-    if "remn" in defs and "elim" in defs and isinstance(defs["remn"], ast.ListComp) and isinstance(defs["elim"], ast.ListComp):
-        e1, t1, i1, f1 = aud.single_gen(defs["remn"])
-        e2, t2, i2, f2 = aud.single_gen(defs["elim"])
-        ok = norm(e1) == norm(t1) and norm(i1) == "candidates" and len(f1) == 1 and norm(f1[0]) == f"{norm(t1)}notinelim" \
-            and norm(e2) == norm(t2) and norm(i2) in ('assrtn["already_eliminated"]', "assrtn['already_eliminated']") and not f2
     lam = [l for l in aud.lambdas_in(maj) if "rcv_votefor_cand" in norm(l.body)]
+    wn, ln = outer_pair_names(maj)
+    # the list handed over as `remaining`: the default bound to the lambda parameter used as third argument
+    rem_outer = None
+    if lam:
+        calls = [c for c in ast.walk(lam[0].body) if isinstance(c, ast.Call) and norm(c.func).endswith("rcv_votefor_cand") and len(c.args) == 3]
+        if calls and isinstance(calls[0].args[2], ast.Name):
+            pname = calls[0].args[2].id
+            a = lam[0].args
+            dmap = dict(zip([x.arg for x in a.args][len(a.args) - len(a.defaults):], a.defaults))
+            if pname in dmap and isinstance(dmap[pname], ast.Name):
+                rem_outer = dmap[pname].id
+    if rem_outer in defs and isinstance(defs[rem_outer], ast.ListComp):
+        e1, t1, i1, f1 = aud.single_gen(defs[rem_outer])
+        if len(f1) == 1 and isinstance(f1[0], ast.Compare) and isinstance(f1[0].ops[0], ast.NotIn) and isinstance(f1[0].comparators[0], ast.Name):
+            el = f1[0].comparators[0].id
+            if el in defs and isinstance(defs[el], ast.ListComp):
+                e2, t2, i2, f2 = aud.single_gen(defs[el])
+                ok = norm(e1) == norm(t1) and norm(i1) == "candidates" and norm(f1[0].left) == norm(t1) \
+                    and norm(e2) == norm(t2) and norm(i2).endswith(("['already_eliminated']", '["already_eliminated"]')) and not f2
     passes = False
     if lam:
-        v, t_in = aud.lambda_term(lam[0], Tx(env={"remn": E(S("REMN")), "winr": E(S("WINR")), "losr": E(S("LOSR"))}), arg_names=["v"])
+        v, t_in = aud.lambda_term(lam[0], Tx(env={rem_outer or "remn": E(S("REMN")), wn: E(S("WINR")), ln: E(S("LOSR"))}), arg_names=["v"])
         if isinstance(v, E):
             apps = sorted(sp.sstr(a) for a in v.e.atoms(sp.core.function.AppliedUndef))
             passes = apps == ["v.rcv_votefor_cand(contest.id, LOSR, REMN)", "v.rcv_votefor_cand(contest.id, WINR, REMN)"] and \
@@ -426,14 +479,19 @@ def r5(chk):
     maj = chk.fn(REL, "Assertion.make_assertions_from_json")
     calls = [c for c in ast.walk(maj) if isinstance(c, ast.Call) and norm(c.func) == "Assorter"]
     ok = False
+    ldefs = {norm(s.targets[0]): s.value for s in ast.walk(maj) if isinstance(s, ast.Assign) and isinstance(s.targets[0], ast.Name)
+             and isinstance(s.value, ast.Lambda)}
     for c in calls:
-        kw = {k.arg: norm(k.value) for k in c.keywords}
+        kw = {k.arg: k.value for k in c.keywords}
         if "winner" in kw or "loser" in kw:
-            ok = kw.get("winner") == "winner_func" and kw.get("loser") == "loser_func"
+            w_l = ldefs.get(norm(kw["winner"])) if "winner" in kw else None
+            l_l = ldefs.get(norm(kw["loser"])) if "loser" in kw else None
+            ok = w_l is not None and l_l is not None and "get_vote_for" in norm(w_l.body) and "rcv_lfunc_wo" in norm(l_l.body)
     lf = [l for l in aud.lambdas_in(maj) if "rcv_lfunc_wo" in norm(l.body)]
     ok2 = False
+    wn, ln = outer_pair_names(maj)
     if lf:
-        v, _ = aud.lambda_term(lf[0], Tx(env={"winr": E(S("WINR")), "losr": E(S("LOSR"))}), arg_names=["v"])
+        v, _ = aud.lambda_term(lf[0], Tx(env={wn: E(S("WINR")), ln: E(S("LOSR"))}), arg_names=["v"])
         ok2 = isinstance(v, E) and sp.sstr(v.e) == "v.rcv_lfunc_wo(contest.id, WINR, LOSR)"
     chk.ob("C14.R5", W("Assertion.make_assertions_from_json"), "neb-slots", ok and ok2,
            "the NEB assorter is built from winner_func (first preference for the winner) and loser_func = rcv_lfunc_wo(contest, winner, loser) "
